@@ -1642,6 +1642,10 @@ class Exec:
                 if k not in cell.items:
                     raise _Raise(st, ExcV('KeyError', node.lineno))
                 return cell.items[k]
+            if isinstance(cell, Obj):
+                ci, fn = source.find_method(cell.cls, '__getitem__')
+                if fn is not None:       # obj[key]  ->  type(obj).__getitem__(obj, key)
+                    return self.call(FuncV('method', (ci, fn), self_val=base), [self.eval(sl, st)], {}, st, node)
         raise Unsupported('subscript of %r at line %d' % (base, node.lineno))
 
     def parse_index(self, sl, a, st, node, pre=None):
@@ -1871,6 +1875,11 @@ class Exec:
                 d[k] = v
                 st.put(base, PyDict(d))
                 return
+            if isinstance(cell, Obj):
+                ci, fn = source.find_method(cell.cls, '__setitem__')
+                if fn is not None:       # obj[key] = v  ->  type(obj).__setitem__(obj, key, v)
+                    self.call(FuncV('method', (ci, fn), self_val=base), [self.eval(sl, st), v], {}, st, node)
+                    return
         raise Unsupported('store into %r' % (base,))
 
     def store_arr(self, ref, a, sl, v, st, node):
@@ -1973,7 +1982,8 @@ class Exec:
         # logger calls are dropped, arguments not evaluated (DESIGN 2.1)
         if isinstance(fn, ast.Attribute) and fn.attr in LOGGER_METHODS:
             base = fn.value
-            if isinstance(base, ast.Name) and base.id in ('self', 'log', '_log', 'logger'):
+            if (isinstance(base, ast.Name) and base.id in ('self', 'log', '_log', 'logger')) or \
+                    (isinstance(base, ast.Attribute) and base.attr in ('log', '_log', 'logger', '_logger')):
                 if fn.attr == 'error_and_raise':
                     raise Unsupported('error_and_raise')
                 return None
@@ -2049,9 +2059,9 @@ class Exec:
                 return h(self, st, ([f.self_val] if f.self_val is not None else []) + args, kwargs, node)
             u = self.registry.get(qn)
             a = ([f.self_val] if f.self_val is not None else []) + args
+            if qn in self.unit.inline or fn.name in self.unit.inline:
+                return self.inline_call(ci, fn, a, kwargs, st, node)       # the unit asks for the callee's real body
             if u is None:
-                if qn in self.unit.inline or fn.name in self.unit.inline:
-                    return self.inline_call(ci, fn, a, kwargs, st, node)
                 raise Unsupported('call to %s which has no contract' % qn)
             return self.call_contract(u, a, kwargs, st, node)
         if f.kind == 'absmethod':
